@@ -1311,5 +1311,13 @@ func (f *frame) next(x *ssa.Next, pc *Term, st State) {
 
 func (f *frame) goStmt(x *ssa.Go, pc *Term, st State) {
 	f.c.note("go statement in " + funcKey(f.fn) + ": goroutine body not followed (abstract call)")
+	var pre State
+	if f.spec != nil && len(f.spec.Sites) > 0 {
+		pre = st.clone()
+	}
 	f.abstractCall(nil, x.Common(), pc, st, "go")
+	if pre != nil {
+		// "at call N of KEY ..." clauses also anchor on go statements
+		f.siteClauses(x, nil, x.Common(), pc, pre, st)
+	}
 }
